@@ -192,6 +192,22 @@ pub fn gen(r: &mut Rng, _tier: &str, _i: usize, stats: &mut BTreeMap<String, u64
     )
 }
 
+
+/// `partial_iter`, or - when `alt` and the index list allows it - `partial_nth` / `partial`: C09 says
+/// they are the same (n-th = n single derivatives, order zero = identity)
+fn diff_entry<'a, E: exmex::Differentiate<'a, Sym> + Clone>(a: E, idxs: &[usize], alt: bool) -> exmex::ExResult<E> {
+    let all_equal = idxs.windows(2).all(|w| w[0] == w[1]);
+    if alt && all_equal {
+        match idxs.len() {
+            0 => a.partial_nth(0, 0),
+            1 => a.partial(idxs[0]),
+            n => a.partial_nth(idxs[0], n),
+        }
+    } else {
+        a.partial_iter(idxs.iter().copied())
+    }
+}
+
 #[derive(Clone)]
 enum P<'a> {
     Fl(F),
@@ -320,8 +336,11 @@ pub fn run(f: &[&str]) -> String {
                     _ => {
                         let idxs: Vec<usize> = if g[2] == "-" { vec![] } else { g[2].split(',').map(|x| x.parse().unwrap()).collect() };
                         match pool[idx(g[1])].clone() {
-                            P::Fl(a) => a.partial_iter(idxs.iter().copied()).map(P::Fl),
-                            P::De(a) => a.partial_iter(idxs.iter().copied()).map(P::De),
+                            // the same derivative through the other entry points: `partial_nth` when all
+                            // indices are equal (order zero included), `partial` for a single index -
+                            // chosen by the parity of the target so that the request decides it
+                            P::Fl(a) => diff_entry(a, &idxs, g[1].parse::<usize>().unwrap_or(0) % 2 == 0).map(P::Fl),
+                            P::De(a) => diff_entry(a, &idxs, g[1].parse::<usize>().unwrap_or(0) % 2 == 0).map(P::De),
                         }
                     }
                 }
